@@ -43,7 +43,7 @@ def gyration_tensor(pos_group: npt.NDArray) -> List[Any]:
 
     # shift the original coordinates to be centered at (0,0,0)
     center_of_mass = pos_group.mean(axis=0)[np.newaxis, :]
-    pos_group -= center_of_mass
+    pos_group = pos_group - center_of_mass
 
     if ndim == 3:
         # 0, 1, 2 = x, y, z
